@@ -58,6 +58,7 @@ import PdshVerif.Dsh.ExitFan
 import PdshVerif.Dsh.FanExec
 import PdshVerif.Opt.Command
 import PdshVerif.Dsh.ExitKillLemmas
+import PdshVerif.Dsh.ExitRefuse
 
 namespace PdshVerif.C08
 open PdshVerif PdshVerif.Dsh PdshVerif.Dsh.Exit
@@ -637,6 +638,41 @@ theorem option_refusal_exit1 {ofx : Opt.Fixes} {d : Opt.Defaults} {p : Opt.Pers}
   rcases Opt.effective_exit_code h with h1 | ⟨_, t, hm, ha⟩
   · rw [h1]; rfl
   · exact absurd ha (hinfo t hm)
+
+/-! ## every refusal path of main / opt.c / module loading / dsh()'s prologue -/
+
+/-- EVERY REFUSAL EXITS 1: whichever statement ends the process before a target is contacted — `errx` (err.c: exit 1),
+    a literal `exit (1)`, `_usage`, or main returning the `retval = 1` of a failed opt_verify — the status is 1, the
+    status this model gives a refused run, whatever the flags (-S / -k play no part before dsh() is entered) -/
+theorem every_refusal_exits_1 (r : Refusal) (fx : Fixes) (fl : Flags) :
+    r.ending.status = 1 ∧ r.ending.status = mainExit fx fl .refused := by
+  cases r <;> exact ⟨rfl, rfl⟩
+
+/-- ... and every information-only ending (-L -V -T -q) exits 0 -/
+theorem every_info_exits_0 (i : Info) : i.ending.status = 0 := by
+  cases i <;> rfl
+
+/-- the enumeration is complete as a type: every refusal is in `Refusal.all` (so a constructor added to the model
+    must be given an ending, a name and a probe entry before this file builds) -/
+theorem refusal_all_complete (r : Refusal) : r ∈ Refusal.all := by
+  cases r <;> simp [Refusal.all]
+
+/-- THE TIE TO THE SOURCE (Gen/Exitsites.lean is regenerated from the tree under check on every run by
+    harness/consts/exitsites.c): every `errx` / `exit` call site of opt.c and main.c is reached by an entry of the
+    probe's battery (or is one of the listed sites only a failing system call reaches).  A NEW exit path in opt.c /
+    main.c that no known refusal reaches makes this list non-empty: the theorem no longer builds. -/
+theorem exit_sites_all_mapped : Gen.XS_UNREACHED = [] := by decide
+
+/-- every entry of the battery — run through the REAL main() of the tree under check — ended with the status the model
+    gives for the outcome it stands for: each refusal 1, each information-only ending 0, a started run 0 -/
+theorem battery_agrees :
+    Gen.XS_BATTERY.all (fun e => statusOfName e.2.1 = some e.2.2.2) = true := by decide
+
+/-- every refusal of the model (but the two in dsh()'s prologue, which the probe's stub of dsh() cannot reach: they
+    are driven on the real binary) is exercised by at least one entry of the battery -/
+theorem every_refusal_probed :
+    (Refusal.all.filter (· ∉ Refusal.beyondProbe)).all
+      (fun r => Gen.XS_BATTERY.any (fun e => e.2.1 = r.name)) = true := by decide
 
 /-! ## -k as a transition system (Dsh/ExitKill.lean): where the process ends, in every schedule -/
 
